@@ -209,6 +209,13 @@ def plain(t):
   return t
 
 
+def reservations(mi, c0, c1, c2, n0, n1, n2, h, x):
+  """three variable declarations in one scope (any collections / names): a name
+  may be declared once per collection; a repeat raises and changes nothing"""
+  return apply_contract(mi, False, 1, 0, 0, x, 3, 2, c0, n0, h, 2, c1, n1, h, 3, c2,
+                        n2, h)
+
+
 def apply_same_slot(mi, a, b, x, n, k0, c0, n0, h0, k1, h1, k2, h2):
   """histories whose ops all aim at the same (collection, name) slot, on the root
   or the child scope"""
@@ -451,6 +458,11 @@ def obligations(tier):
          bounds='every single op (7 kinds x 3 collections x 2 names x root/child) '
                 'x %d mutable forms x dict/FrozenDict x cache present/absent, 2 '
                 'repeated calls' % NMUT),
+      Ob('core_reservations', reservations,
+         dict(mi=I(0, 3), c0=col, c1=col, c2=col, n0=nm, n1=nm, n2=nm, h=B(),
+              x=I(-3, 3)), split=('mi', 'c0'), timeout=600, funcs=F,
+         bounds='3 variable() declarations over 3 collections x 2 names in one '
+                'scope (root or child)'),
       Ob('core_apply_same_slot', apply_same_slot,
          dict(mi=I(0, NMUT - 1), a=I(-3, 3), b=I(-3, 3), x=I(-3, 3),
               n=I(2, 2 if quick else 3), k0=kind, c0=col, n0=nm, h0=B(), k1=kind,
